@@ -194,5 +194,5 @@ func ZZ_C16_pipeline_quick() {
 }
 
 func ZZ_C16_pipeline() {
-	zzPipeline(zz.Choose(4), zz.Choose(3), zz.Choose(2), 5)
+	zzPipeline(zz.Choose(4), zz.Choose(3), zz.Choose(2), 4)
 }
